@@ -224,10 +224,19 @@ func c17Inventory(in c17Input) []CSpec {
 	for i := range inv {
 		sort.SliceStable(inv[i].Frames, func(a, b int) bool { return inv[i].Frames[a].TS < inv[i].Frames[b].TS })
 	}
-	if base := inv[0].Frames; len(base) > 0 {
+	// only ordinary-sized lines are repeated: some stages cost seconds on one 80 KB line, and a log of
+	// hundreds of them is a resource request (8 minutes measured), not a question of termination
+	var base []Frame
+	for _, f := range inv[0].Frames {
+		if len(f.Body) <= 4096 {
+			base = append(base, f)
+		}
+	}
+	if len(base) > 0 {
+		lastTS := inv[0].Frames[len(inv[0].Frames)-1].TS
 		for k := 0; len(inv[0].Frames) < in.LongLog; k++ {
 			f := base[k%len(base)]
-			f.TS = base[len(base)-1].TS + int64(k+1)*1e6
+			f.TS = lastTS + int64(k+1)*1e6
 			inv[0].Frames = append(inv[0].Frames, f)
 		}
 	}
@@ -275,7 +284,9 @@ func c17Gen(seed int64, idx int, big bool) c17Input {
 	if r.Chance(1, 3) {
 		in.P = EvalP{Start: start, End: start, Step: 0}
 	} else {
-		step := vk.Pick(r, []time.Duration{time.Millisecond, 500 * time.Millisecond, time.Second, 7 * time.Second, time.Hour})
+		step := vk.Pick(r, []time.Duration{time.Millisecond, 500 * time.Millisecond, time.Second, 7 * time.Second, time.Hour,
+			// positive steps below a millisecond are positive steps (--step 0.0005)
+			500 * time.Microsecond, 250 * time.Microsecond, time.Microsecond, 1})
 		in.P = EvalP{Start: start, End: start + int64(r.Range(0, 63))*int64(step), Step: step}
 	}
 	in.P.Limit = vk.Pick(r, []int{-1, 0, 1, 5, 1000, -100})
